@@ -28,9 +28,34 @@ impl SerialComms {
 
     self.control = value;
 
+    #[cfg(gb_dynarec_verif)]
+    if value & 0x80 != 0 {
+      verif::log_byte(self.latch);
+    }
+
     if value & 0x80 != 0 {
       let _ = io::stdout().write(&[self.latch]);
       let _ = io::stdout().flush();
     }
+  }
+}
+
+
+/// Verification hook: a per-thread copy of every byte sent to stdout, so two
+/// cores in one process can be compared.
+#[cfg(gb_dynarec_verif)]
+pub mod verif {
+  use std::cell::RefCell;
+
+  thread_local! {
+    static LOG: RefCell<Vec<u8>> = RefCell::new(Vec::new());
+  }
+
+  pub fn log_byte(value: u8) {
+    LOG.with(|log| log.borrow_mut().push(value));
+  }
+
+  pub fn log_take() -> Vec<u8> {
+    LOG.with(|log| std::mem::replace(&mut *log.borrow_mut(), Vec::new()))
   }
 }
